@@ -87,3 +87,123 @@ pub fn check_roundtrip(case: &str) -> Result<(), String> {
     if format!("{:?}", again) != format!("{:?}", rule) { return Err(format!("parsing the printed text `{}` gives a different value", printed)); }
     Ok(())
 }
+
+// ---- C19, random rules: the round trip on generated texts ---------------------------------------------------------------
+// A rule is generated as a tree; from the tree come the SOURCE text (infix comparison and arithmetic where the syntax
+// allows them, extra blanks around separators) and the CANONICAL text (what Display is documented to write: functional form
+// for comparison and arithmetic, `, ` / `; ` / ` :- `, no parentheses - so a disjunction holds conjunctions, never the
+// reverse).  check_roundtrip does the rest: print(parse(source)) == canonical, parse(canonical) == parse(source).
+
+const R_ATOMS: [&str; 8] = ["a", "b", "abc", "foo_bar", "Alice", "Harry Potter", "x1", "noun"];
+const R_VARS: [&str; 6] = ["$X", "$Y", "$Z", "$Abc", "$H", "$T"];
+const R_INTS: [&str; 7] = ["0", "1", "7", "42", "-3", "100", "-12"];
+const R_FLOATS: [&str; 8] = ["0.5", "2.5", "100.25", "0.001", "3.14159", "-0.25", "0.00005", "-7.125"];
+
+/// (source, canonical) of a random term; `operand` = the term stands where parse_term reads it (right or left of an infix,
+/// a list element), so arithmetic may be written infix at its top
+pub fn r_term(r: &mut Rng, depth: usize, operand: bool) -> (String, String) {
+    let pick = if depth == 0 { r.below(6) } else { r.below(10) };
+    match pick {
+        0 | 1 => { let a = R_ATOMS[r.below(R_ATOMS.len())]; (a.into(), a.into()) },
+        2 | 3 => { let v = R_VARS[r.below(R_VARS.len())]; (v.into(), v.into()) },
+        4 => {
+            // (a signed number is a number as an argument and an atom where parse_term reads it - C20's known finding -
+            //  so as an operand or a list element only unsigned numbers are generated)
+            let mut n = if r.below(2) == 0 { R_INTS[r.below(R_INTS.len())] } else { R_FLOATS[r.below(R_FLOATS.len())] };
+            if operand && n.starts_with('-') { n = &n[1..]; }
+            (n.into(), n.into())
+        },
+        5 => ("$_".into(), "$_".into()),
+        6 => {
+            // a list, perhaps with a tail variable
+            let n = r.below(4);
+            let mut s = vec![]; let mut c = vec![];
+            for _ in 0..n { let (a, b) = r_term(r, depth - 1, false); let (a, b) = (unsigned(a), unsigned(b)); s.push(a); c.push(b); }
+            if n > 0 && r.below(3) == 0 {
+                let t = R_VARS[r.below(R_VARS.len())];
+                (format!("[{} | {}]", s.join(", "), t), format!("[{} | {}]", c.join(", "), t))
+            } else { (format!("[{}]", s.join(if r.below(4) == 0 { " , " } else { ", " })), format!("[{}]", c.join(", "))) }
+        },
+        7 | 8 => {
+            // a complex term
+            let f = ["f", "g", "pair", "city"][r.below(4)];
+            let n = 1 + r.below(3);
+            let mut s = vec![]; let mut c = vec![];
+            for _ in 0..n { let (a, b) = r_term(r, depth - 1, false); s.push(a); c.push(b); }
+            (format!("{}({})", f, s.join(if r.below(4) == 0 { ",  " } else { ", " })), format!("{}({})", f, c.join(", ")))
+        },
+        _ => {
+            // arithmetic: functional everywhere, infix only where parse_term reads the text
+            let k = r.below(4);
+            let name = ["add", "subtract", "multiply", "divide"][k];
+            let op = ["+", "-", "*", "/"][k];
+            let leaf = |r: &mut Rng| -> String { match r.below(3) { 0 => R_VARS[r.below(R_VARS.len())].to_string(), 1 => ["1", "2", "10"][r.below(3)].to_string(), _ => ["0.5", "2.5"][r.below(2)].to_string() } };
+            let (a, b) = (leaf(r), leaf(r));
+            let canon = format!("{}({}, {})", name, a, b);
+            if operand && r.below(2) == 0 { (format!("{} {} {}", a, op, b), canon) } else { (canon.clone(), canon) }
+        },
+    }
+}
+
+fn unsigned(t: String) -> String { if t.starts_with('-') && t[1..].chars().all(|c| c.is_ascii_digit() || c == '.') { t[1..].to_string() } else { t } }
+
+fn r_literal(r: &mut Rng, depth: usize) -> (String, String) {
+    let pick = if depth == 0 { [0, 1, 2, 3, 9, 10, 11][r.below(7)] } else { r.below(16) };
+    match pick {
+        0..=4 => {
+            let f = ["p", "q", "parent", "likes"][r.below(4)];
+            let n = 1 + r.below(3);
+            let mut s = vec![]; let mut c = vec![];
+            for _ in 0..n { let (a, b) = r_term(r, 2, false); s.push(a); c.push(b); }
+            (format!("{}({})", f, s.join(", ")), format!("{}({})", f, c.join(", ")))
+        },
+        5 | 6 => { let (a, b) = r_term(r, 1, true); let (x, y) = r_term(r, 2, true); (format!("{} = {}", a, x), format!("{} = {}", b, y)) },
+        7 | 8 => {
+            let k = r.below(5);
+            let op = ["==", ">", "<", ">=", "<="][k];
+            let name = ["equal", "greater_than", "less_than", "greater_than_or_equal", "less_than_or_equal"][k];
+            let (a, b) = r_term(r, 0, true); let (x, y) = r_term(r, 0, true);
+            if r.below(3) == 0 { (format!("{}({}, {})", name, a, x), format!("{}({}, {})", name, b, y)) } else { (format!("{} {} {}", a, op, x), format!("{}({}, {})", name, b, y)) }
+        },
+        9 => { let w = ["!", "fail", "nl"][r.below(3)]; (w.into(), w.into()) },
+        10 | 11 => {
+            let (name, n) = [("print", 2), ("print_list", 1), ("append", 3), ("functor", 2), ("include", 3), ("exclude", 3), ("count", 2)][r.below(7)];
+            let mut s = vec![]; let mut c = vec![];
+            for _ in 0..n { let (a, b) = r_term(r, 1, false); s.push(a); c.push(b); }
+            (format!("{}({})", name, s.join(", ")), format!("{}({})", name, c.join(", ")))
+        },
+        12 | 13 => { let (a, b) = r_inner(r); (format!("not({})", a), format!("not({})", b)) },
+        _ => { let (a, b) = r_inner(r); (format!("time({})", a), format!("time({})", b)) },
+    }
+}
+
+fn r_inner(r: &mut Rng) -> (String, String) {
+    // any literal: a call, a built-in, a unification or comparison with operands of every shape (read back since the
+    // repair of check_infix, 8.34), another not / time
+    r_literal(r, 1)
+}
+
+pub fn enum_random_rules(seed: u64) -> Vec<String> {
+    let mut r = Rng(seed.wrapping_mul(0x9E3779B97F4A7C15) ^ 0x2545F4914F6CDD1D | 1);
+    let mut out = vec![];
+    for _ in 0..2500 {
+        let hf = ["r", "rule", "h"][r.below(3)];
+        let n = 1 + r.below(3);
+        let mut s = vec![]; let mut c = vec![];
+        for _ in 0..n { let (a, b) = r_term(&mut r, 2, false); s.push(a); c.push(b); }
+        let (hs, hc) = (format!("{}({})", hf, s.join(", ")), format!("{}({})", hf, c.join(", ")));
+        if r.below(5) == 0 { out.push(format!("{}.\u{1}{}.", hs, hc)); continue; }
+        // body: a conjunction, or a disjunction of conjunctions
+        let alts = if r.below(3) == 0 { 2 + r.below(2) } else { 1 };
+        let mut sa = vec![]; let mut ca = vec![];
+        for _ in 0..alts {
+            let m = 1 + r.below(3);
+            let mut sl = vec![]; let mut cl = vec![];
+            for _ in 0..m { let (a, b) = r_literal(&mut r, 1); sl.push(a); cl.push(b); }
+            sa.push(sl.join(if r.below(5) == 0 { " ,  " } else { ", " })); ca.push(cl.join(", "));
+        }
+        let sep = if r.below(5) == 0 { " ;  " } else { "; " };
+        out.push(format!("{} :- {}.\u{1}{} :- {}.", hs, sa.join(sep), hc, ca.join("; ")));
+    }
+    out
+}
